@@ -1341,7 +1341,11 @@ ws_http_cb_dialer(nni_ws *ws, nni_aio *aio)
 
 	d = ws->dialer;
 	nni_mtx_lock(&d->mtx);
+	// The user aio is owned by whoever clears ws->useraio under ws->mtx
+	// (ws_dial_cancel does so under that lock only).
+	nni_mtx_lock(&ws->mtx);
 	uaio = ws->useraio;
+	nni_mtx_unlock(&ws->mtx);
 
 	// We have two steps.  In step 1, we just sent the request,
 	// and need to retrieve the reply.  In step two we have
@@ -1415,11 +1419,19 @@ ws_http_cb_dialer(nni_ws *ws, nni_aio *aio)
 		}
 	}
 
-	// At this point, we are in business!
-	nni_list_remove(&d->wspend, ws);
-	ws->ready   = true;
+	// At this point, we are in business!  (Unless the request was
+	// canceled while we were validating the reply.)
+	nni_mtx_lock(&ws->mtx);
+	uaio        = ws->useraio;
 	ws->useraio = NULL;
-	ws->dialer  = NULL;
+	nni_mtx_unlock(&ws->mtx);
+	if (uaio == NULL) {
+		rv = NNG_ECANCELED;
+		goto err;
+	}
+	nni_list_remove(&d->wspend, ws);
+	ws->ready  = true;
+	ws->dialer = NULL;
 	nni_aio_set_output(uaio, 0, ws);
 	nni_aio_finish(uaio, 0, 0);
 	if (nni_list_empty(&d->wspend)) {
@@ -1429,8 +1441,11 @@ ws_http_cb_dialer(nni_ws *ws, nni_aio *aio)
 	return;
 err:
 	nni_list_remove(&d->wspend, ws);
+	nni_mtx_lock(&ws->mtx);
+	uaio        = ws->useraio;
 	ws->useraio = NULL;
-	ws->dialer  = NULL;
+	nni_mtx_unlock(&ws->mtx);
+	ws->dialer = NULL;
 	if (nni_list_empty(&d->wspend)) {
 		nni_cv_wake(&d->cv);
 	}
@@ -2234,6 +2249,7 @@ ws_conn_cb(void *arg)
 	return;
 
 err:
+	ws->useraio = NULL;
 	nni_aio_finish_error(uaio, rv);
 	nni_mtx_unlock(&ws->mtx);
 	ws_reap(ws);
